@@ -47,6 +47,40 @@ pub fn deb822_parse(fs: &[&str]) -> String {
     format!("lex={}|{}|strict={}", lx, rel, strict)
 }
 
+/// stream deb822-doc: fields = [hex text; doc encoding (model side only); hex probe key]
+pub fn deb822_doc(fs: &[&str]) -> String {
+    let s = unhex(fs[0]);
+    let k = unhex(fs[2]);
+    guard(move || {
+        let strict = match Deb822::from_str(&s) {
+            Ok(d) => d,
+            Err(_) => return "strict=ERR".to_string(),
+        };
+        let first = match Paragraph::from_str(&s) {
+            Ok(p) => format!("OK:{}", items_s(&p)),
+            Err(_) => "ERR".to_string(),
+        };
+        let look = strict
+            .paragraphs()
+            .map(|p| {
+                format!(
+                    "keys={};get={};all={};has={}",
+                    p.keys().map(|x| hex(&x)).collect::<Vec<_>>().join(","),
+                    opt_hex(p.get(&k).as_deref()),
+                    p.get_all(&k).map(|x| hex(&x)).collect::<Vec<_>>().join(","),
+                    b(p.contains_key(&k))
+                )
+            })
+            .collect::<Vec<_>>()
+            .join("/");
+        format!("strict=OK:{}|first={}|look={}", doc_items_s(&strict), first, look)
+    })
+}
+
 pub fn streams() -> Vec<(&'static str, crate::StreamFn)> {
-    vec![("deb822-parse", deb822_parse as crate::StreamFn)]
+    vec![
+        ("deb822-parse", deb822_parse as crate::StreamFn),
+        ("deb822-reject", deb822_parse as crate::StreamFn),
+        ("deb822-doc", deb822_doc as crate::StreamFn),
+    ]
 }
